@@ -57,7 +57,10 @@ RULE = ("api cases: a generated ranked rule system (3-7 variables: int/float/boo
         "non-sorted order, numeric-looking ids, half of the time the same ids for persons and households at different positions, instances without keys, households omitted, non-canonical period keys, "
         "inputs that cover part of an array), the same situation again later, a sibling situation with other input "
         "values, a malformed stream (unknown variable / entity, variable of another entity, invalid period key, slot of "
-        "the wrong period unit), GET /parameter/p<k> and /variable/<name>; yaml cases: one system and a file of 10-14 "
+        "the wrong period unit), GET /parameter/p<k> and /variable/<name>, GET /parameter/<path> of generated marginal rate / "
+        "amount scales (2-4 brackets; rates and amounts revised on dates where no threshold moves and vice versa, brackets "
+        "appearing, disappearing, stopped scales), of a nested leaf and of the nodes (listing compared with "
+        "get_parameters_at_instant on every mentioned date, the day before and 40 days later); yaml cases: one system and a file of 10-14 "
         "tests, each 1-3 expectations in the by-variable / by-entity / by-instance layout, scalar / list / per-period "
         "forms, margins absent / absolute / relative / both / per-variable maps, expected values chosen equal, inside, "
         "exactly at and beyond the margin from the real engine values.  A case is non-trivial when at least one slot "
@@ -164,9 +167,64 @@ EXTRAS = {
 }
 
 
-def build_tbs(sysj):
-    """rules.build_system plus the extra variables (value types the rule language does not have)."""
+SCALE_DATES = ["2000-01-01", "2014-01-01", "2015-07-01", "2016-01-01", "2017-01-01", "2018-07-01", "2019-01-01",
+               "2020-01-01"]
+SCALE_PATHS = {"taxes/s0": ("s0",), "taxes/sub/s1": ("sub", "s1")}
+
+
+def gen_scale(rng, kind):
+    """A marginal rate or amount scale of 2-4 brackets.  Rates / amounts exist from 2000 on and are revised on
+    dates of their own; thresholds move on other dates; later brackets appear after 2000 or disappear (null
+    threshold); sometimes the whole scale is stopped.  Thresholds of different brackets never meet."""
+    nb = rng.randint(2, 4)
+    stop = rng.choice(SCALE_DATES[4:]) if rng.random() < 0.15 else None
+    brackets = []
+    for k in range(nb):
+        def value():
+            return rng.randint(1, 15) / 16 if kind == "rate" else rng.randint(0, 40) * 25
+        vals = {"2000-01-01": value()}
+        for d in rng.sample(SCALE_DATES[1:], rng.randint(0, 3)):
+            vals[d] = value()
+
+        def threshold():
+            return (0 if k == 0 and rng.random() < 0.7 else k * 1000 + rng.randint(0, 9) * 100)
+        first = "2000-01-01" if (k == 0 or rng.random() < 0.6) else rng.choice(SCALE_DATES[1:4])
+        ths = {first: threshold()}
+        for d in rng.sample([x for x in SCALE_DATES if x > first], rng.randint(0, 2)):
+            ths[d] = threshold() if (k == 0 or rng.random() < 0.75) else None
+        if stop is not None:
+            ths = {d: v for d, v in ths.items() if d < stop}
+            ths[stop] = None
+            if not any(v is not None for v in ths.values()):
+                ths[first if first < stop else "2000-01-01"] = threshold()
+        brackets.append({"threshold": sorted(ths.items()), "value": sorted(vals.items())})
+    return {"kind": kind, "brackets": [{"threshold": [list(x) for x in b["threshold"]],
+                                        "value": [list(x) for x in b["value"]]} for b in brackets]}
+
+
+def gen_ptree(rng):
+    leaf = [[d, rng.choice([rng.randint(-5, 9), None]) if d != "2000-01-01" else rng.randint(0, 5)]
+            for d in sorted({"2000-01-01"} | set(rng.sample(SCALE_DATES[1:], rng.randint(0, 3))))]
+    return {"s0": gen_scale(rng, "rate"), "s1": gen_scale(rng, rng.choice(["amount", "rate", "amount"])), "q": leaf}
+
+
+def scale_data(sc):
+    key = "rate" if sc["kind"] == "rate" else "amount"
+    return {"brackets": [{"threshold": {d: {"value": v} for d, v in b["threshold"]},
+                          key: {d: {"value": v} for d, v in b["value"]}} for b in sc["brackets"]]}
+
+
+def build_tbs(sysj, ptree=None):
+    """rules.build_system plus the extra variables (value types the rule language does not have) and, for api
+    cases, a nested parameter node taxes = {s0: scale, sub: {s1: scale, q: parameter}}."""
+    from openfisca_core.parameters import ParameterNode
+
     tbs = rules.build_system(sysj, set())
+    if ptree is not None:
+        data = {"s0": scale_data(ptree["s0"]),
+                "sub": {"s1": scale_data(ptree["s1"]), "q": {"values": {d: {"value": v} for d, v in ptree["q"]}}}}
+        tbs.parameters.add_child("taxes", ParameterNode("taxes", data=data))
+        tbs._parameters_at_instant_cache = {}
     person = tbs.person_entity
     household = tbs.group_entities[0]
 
@@ -571,8 +629,12 @@ def gen_api_case(rng):
     nops = rng.randint(5, 8)
     while len(ops) < nops:
         r = rng.random()
-        if r < 0.12 and sysj["params"]:
+        if r < 0.07 and sysj["params"]:
             ops.append(["parameter", rng.randrange(len(sysj["params"]))])
+            continue
+        if r < 0.18:
+            ops.append(rng.choice([["scale", "taxes/s0"], ["scale", "taxes/sub/s1"], ["scale", "taxes/s0"],
+                                   ["pleaf", "taxes/sub/q"], ["pnode", rng.choice(["taxes", "taxes/sub"])]]))
             continue
         if r < 0.27:
             # listings of variables with an end date or several dated formulas are asked for more often
@@ -604,7 +666,7 @@ def gen_api_case(rng):
         ops.append(["calculate", len(docs) - 1])
         if rng.random() < 0.45:
             ops.append(["trace", len(docs) - 1])
-    return enc_case({"kind": "api", "sys": sysj, "docs": docs, "ops": ops[:nops + 1]})
+    return enc_case({"kind": "api", "sys": sysj, "ptree": gen_ptree(rng), "docs": docs, "ops": ops[:nops + 1]})
 
 
 # ---------------------------------------------------------------------------------------
@@ -888,11 +950,11 @@ def run_api(case):
 
     sysj = case["sys"]
     vt = var_table(sysj)
-    tbs = build_tbs(sysj)
+    tbs = build_tbs(sysj, case.get("ptree"))
     app = create_app(tbs)
     app.logger.setLevel(logging.CRITICAL + 10)
     client = app.test_client()
-    tbs2 = build_tbs(sysj)           # the oracle's own instance of the system
+    tbs2 = build_tbs(sysj, case.get("ptree"))           # the oracle's own instance of the system
     ops_obs = []
     inexact = False
     values = {}
@@ -929,11 +991,22 @@ def run_api(case):
                     ops_obs.append({"op": op, "status": 200, "requested": body.get("requestedCalculations"),
                                     "described": described(body.get("entitiesDescription", {})),
                                     "traced": traced})
-            elif kind == "parameter":
-                r = client.get(f"/parameter/p{op[1]}")
+            elif kind in ("parameter", "pleaf"):
+                r = client.get(f"/parameter/p{op[1]}" if kind == "parameter" else f"/parameter/{op[1]}")
                 body = r.get_json()
                 ops_obs.append({"op": op, "status": r.status_code,
                                 "values": [[d, v] for d, v in sorted(body.get("values", {}).items(), reverse=True)]})
+            elif kind == "scale":
+                r = client.get(f"/parameter/{op[1]}")
+                body = r.get_json()
+                listed = []
+                for d, br in sorted((body.get("brackets") or {}).items()):
+                    listed.append([d, None if br is None else sorted([float(t), v] for t, v in br.items())])
+                ops_obs.append({"op": op, "status": r.status_code, "brackets": listed, "has": "brackets" in body})
+            elif kind == "pnode":
+                r = client.get(f"/parameter/{op[1]}")
+                body = r.get_json()
+                ops_obs.append({"op": op, "status": r.status_code, "subparams": sorted(body.get("subparams", {}))})
             else:
                 r = client.get(f"/variable/{op[1]}")
                 body = r.get_json()
@@ -958,6 +1031,38 @@ def run_api(case):
                     val = Err(errkind(e))
                 samples.append([t.isoformat(), val])
         uses["params"].append(samples)
+    if case.get("ptree"):
+        uses["scales"] = {}
+        for path, attrs in SCALE_PATHS.items():
+            sc = case["ptree"][attrs[-1]]
+            mentioned = {d for b in sc["brackets"] for d, _ in b["threshold"] + b["value"]}
+            dates = set()
+            for d in mentioned:
+                d0 = datetime.date.fromisoformat(d)
+                dates |= {d0, d0 - datetime.timedelta(days=1), d0 + datetime.timedelta(days=40)}
+            samples = []
+            for t in sorted(dates):
+                try:
+                    node = tbs2.get_parameters_at_instant(t.isoformat()).taxes
+                    for a in attrs:
+                        node = getattr(node, a)
+                    # (before its first value an amount scale has no bracket at all and is built as an empty rate scale)
+                    vals = node.rates if sc["kind"] == "rate" else getattr(node, "amounts", [])
+                    got = sorted([float(x), float(y)] for x, y in zip(node.thresholds, vals))
+                except Exception as e:  # noqa: BLE001
+                    got = Err(errkind(e), f"{type(e).__name__}: {e}"[:120])
+                samples.append([t.isoformat(), got])
+            uses["scales"][path] = samples
+        uses["leaf"] = []
+        for d, _ in case["ptree"]["q"]:
+            for delta in (-1, 0, 40):
+                t = (datetime.date.fromisoformat(d) + datetime.timedelta(days=delta)).isoformat()
+                try:
+                    val = tbs2.get_parameters_at_instant(t).taxes.sub.q
+                except Exception as e:  # noqa: BLE001
+                    val = Err(errkind(e))
+                uses["leaf"].append([t, val])
+        uses["nodes"] = {"taxes": sorted(tbs2.parameters.taxes.children), "taxes/sub": sorted(tbs2.parameters.taxes.sub.children)}
     for name in vt:
         var = tbs2.get_variable(name)
         samples = []
@@ -1169,6 +1274,8 @@ def coq_ops(case, obs):
                             f"{clist([cstr(i) for i in entry['hids']])} {cdoc(flat)})", n))
         elif kind == "parameter":
             out.append((f"(OParam {rules.cnat(op[1])})", n))
+        elif kind in ("scale", "pleaf", "pnode"):
+            continue            # scales and nested nodes: oracle only
         elif vt[op[1]]["rule"] is not None:
             out.append((f"(OVar {rules.cnat(vt[op[1]]['rule'])})", n))
     return out
@@ -1337,12 +1444,33 @@ def oracle_api(case, obs):
                         want_leaf = fractions.Fraction(want_leaf)
                     if not same(got, want_leaf):
                         return f"trace: {key}[{e[1]}] is {got!r}, /calculate and the engine give {want_leaf!r}"
-        elif kind == "parameter":
-            hist = sysj["params"][op[1]]
-            want = sorted(([f"{y:04d}-{m:02d}-{d:02d}", z] for (y, m, d), z in hist), reverse=True)
+        elif kind == "scale":
+            if o["status"] != 200 or not o["has"]:
+                return f"scale: /parameter/{op[1]} answered {o['status']} without brackets"
+            for t, eng in obs["uses"]["scales"][op[1]]:
+                before = [br for d, br in o["brackets"] if d <= t]
+                shown = (before[-1] or []) if before else []
+                if isinstance(eng, Err):
+                    return f"scale: {op[1]} at {t}: engine fails ({eng.msg})"
+                ok = len(shown) == len(eng) and all(
+                    abs(a[0] - b[0]) < 1e-9 and a[1] is not None and abs(a[1] - b[1]) < 1e-9 for a, b in zip(shown, eng))
+                if not ok:
+                    return (f"scale: {op[1]} on {t}: the engine uses the brackets {eng}, the listing shows {shown} "
+                            f"(listed dates {[d for d, _ in o['brackets']]})")
+        elif kind == "pnode":
+            if o["status"] != 200 or o["subparams"] != obs["uses"]["nodes"][op[1]]:
+                return f"node: /parameter/{op[1]} lists {o.get('subparams')}, the engine's node has {obs['uses']['nodes'][op[1]]}"
+        elif kind in ("parameter", "pleaf"):
+            if kind == "parameter":
+                hist = sysj["params"][op[1]]
+                want = sorted(([f"{y:04d}-{m:02d}-{d:02d}", z] for (y, m, d), z in hist), reverse=True)
+                samples = obs["uses"]["params"][op[1]]
+            else:
+                want = sorted(([d, z] for d, z in case["ptree"]["q"]), reverse=True)
+                samples = obs["uses"]["leaf"]
             if o["status"] != 200 or not same(o["values"], want):
-                return f"parameter: /parameter/p{op[1]} lists {o.get('values')} for the history {want}"
-            for t, val in obs["uses"]["params"][op[1]]:
+                return f"parameter: /parameter/{op[1]} lists {o.get('values')} for the history {want}"
+            for t, val in samples:
                 listed = [z for d, z in want if d <= t]
                 shown = listed[0] if listed else None
                 if isinstance(val, Err):
